@@ -78,17 +78,17 @@ KeyTerm(q) ==
                                 srcHost |-> "-", dstHost |-> "-"]
 (* Why a request is not admitted (first failing clause of the statement), used for failure keys. *)
 WhyNot(q) ==
-    CASE q.rpc = "ashost"   -> IF q.proto = "generic" THEN "generic-protocol"
+    CASE q.rpc = "ashost"   -> IF q.proto = "generic" THEN "generic"
                                ELSE IF q.dst # "local" THEN "dst-as-not-local"
-                               ELSE IF ~IsDstHost(q) THEN "requester-not-dst-host" ELSE "-"
-      [] q.rpc = "hostas"   -> IF q.proto = "generic" THEN "generic-protocol"
+                               ELSE IF ~IsDstHost(q) THEN "not-dst-host" ELSE "-"
+      [] q.rpc = "hostas"   -> IF q.proto = "generic" THEN "generic"
                                ELSE IF q.src # "local" THEN "src-as-not-local"
-                               ELSE IF ~IsSrcHost(q) THEN "requester-not-src-host" ELSE "-"
-      [] q.rpc = "hosthost" -> IF q.proto = "generic" THEN "generic-protocol"
-                               ELSE IF ~Admit(q) THEN "requester-not-a-named-host-on-local-side" ELSE "-"
-      [] q.rpc = "lvl1"     -> IF CertIA(q) = "none" THEN "no-authenticated-as:" \o q.cert ELSE "-"
-      [] q.rpc = "sv"       -> IF ~Configured(q) THEN "host-not-configured-for-protocol:" \o q.allow ELSE "-"
-      [] q.rpc = "intra"    -> IF ~Configured(q) THEN "host-not-configured-for-protocol:" \o q.allow
-                               ELSE IF ~(q.src = "local" \/ q.dst = "local") THEN "local-as-not-endpoint"
+                               ELSE IF ~IsSrcHost(q) THEN "not-src-host" ELSE "-"
+      [] q.rpc = "hosthost" -> IF q.proto = "generic" THEN "generic"
+                               ELSE IF ~Admit(q) THEN "not-named-local-host" ELSE "-"
+      [] q.rpc = "lvl1"     -> IF CertIA(q) = "none" THEN "no-auth-as:" \o q.cert ELSE "-"
+      [] q.rpc = "sv"       -> IF ~Configured(q) THEN "not-configured:" \o q.allow ELSE "-"
+      [] q.rpc = "intra"    -> IF ~Configured(q) THEN "not-configured:" \o q.allow
+                               ELSE IF ~(q.src = "local" \/ q.dst = "local") THEN "local-not-endpoint"
                                ELSE "-"
 =============================================================================
